@@ -127,7 +127,7 @@ def api_cases(ctx):
                 out.append((f"{nm}:{s1}x{s2}:{dts}", f(a, b), True))
             except Exception:   # noqa: BLE001
                 pass
-    for s1 in [(3, 4), (4,), (), (2, 0)]:
+    for s1 in [(3, 4), (4,), (), (2, 0), (1, 3), (3, 1), (1,)]:
         for dt in ("float64", "int64", "bool"):
             a = ph(s1, dt)
             for sc in scalars:
@@ -155,7 +155,7 @@ def api_cases(ctx):
     # math functions
     for nm in ["sin", "cos", "tan", "arcsin", "arccos", "arctan", "sinh", "cosh", "tanh", "exp", "log", "log10",
                "sqrt", "abs", "isnan", "real", "imag", "conj"]:
-        for s in [(3, 4), (), (0,)]:
+        for s in [(3, 4), (), (0,), (1, 4), (3, 1), (1,), (1, 1)]:
             a = ph(s, "float64" if nm not in ("real", "imag", "conj") else "complex128")
             try:
                 out.append((f"math:{nm}:{s}", getattr(pt, nm)(a), True))
@@ -163,8 +163,19 @@ def api_cases(ctx):
                 pass
     a, b = ph((3, 4), "float64"), ph((3, 4), "float64")
     out.append(("math:arctan2", pt.arctan2(a, b), True))
+    for s1, s2 in [((1, 4), (1, 4)), ((3, 1), (3, 1)), ((1,), (1,)), ((1, 1), (1, 1))]:
+        out.append((f"math:arctan2:{s1}x{s2}", pt.arctan2(ph(s1, "float64"), ph(s2, "float64")), True))
+    # unary minus / plus / abs operator / invert
+    for s in [(3, 4), (), (0,), (1, 4), (3, 1), (1,), (1, 1), (2, 1, 3)]:
+        for dt in ("float64", "int32", "complex128"):
+            a = ph(s, dt)
+            out.append((f"neg:{s}:{dt}", -a, True))
+            try:
+                out.append((f"abs-operator:{s}:{dt}", abs(a), True))
+            except Exception:   # noqa: BLE001
+                pass
     # reductions over every axis subset
-    for s in [(2, 3, 4), (3, 4), (5,)]:
+    for s in [(2, 3, 4), (3, 4), (5,), (1, 3), (3, 1), (3, 3), (2, 3, 3), (1, 1)]:
         for dt in ("float64", "int64"):
             a = ph(s, dt)
             for r in range(1, len(s) + 1):
@@ -261,6 +272,30 @@ def near_misses(ctx):
                                                 (3, 3), {"_in0": a})))
     out.append(("call-with-offset-argument",
                 mk(prim.Call(v("pytato.c99.sin"), (v("_in0")[(v("_0") + 1) % 3, v("_1")],)), (3, 3), {"_in0": a})))
+    # operands whose shapes do not broadcast against each other (what lowering an einsum / a matmul produces)
+    w3, w4, m34 = ph((3,)), ph((4,)), ph((3, 4))
+    out.append(("product-of-non-broadcastable-operands",
+                mk(v("_in0")[v("_0"), v("_1")] * v("_in1")[v("_0")], (3, 4), {"_in0": m34, "_in1": w3})))
+    out.append(("where-of-non-broadcastable-operands",
+                mk(prim.If(prim.Comparison(v("_in0")[v("_0"), v("_1")], ">", 0), v("_in1")[v("_0")], 0.0),
+                   (3, 4), {"_in0": m34, "_in1": w3})))
+    out.append(("call-of-non-broadcastable-operands",
+                mk(prim.Call(v("pytato.c99.atan2"), (v("_in0")[v("_0"), v("_1")], v("_in1")[v("_0")])),
+                   (3, 4), {"_in0": m34, "_in1": w3})))
+    # every high-level node kind lowered by the public to_index_lambda: classified correctly or unknown
+    from pytato.transform.lower_to_index_lambda import to_index_lambda
+    x34, y34 = ph((3, 4)), ph((3, 4))
+    lowered = {
+        "einsum-ij,i->ij": pt.einsum("ij,i->ij", x34, w3), "einsum-ij,j->i": pt.einsum("ij,j->i", x34, w4),
+        "einsum-ij->ji": pt.einsum("ij->ji", x34), "einsum-ij,ij->": pt.einsum("ij,ij->", x34, y34),
+        "einsum-ij->j": pt.einsum("ij->j", x34), "einsum-ij->ij": pt.einsum("ij->ij", x34),
+        "matmul": x34 @ pt.transpose(y34), "roll": pt.roll(x34, 1, 0), "transpose": pt.transpose(x34),
+        "stack": pt.stack([x34, y34]), "concatenate": pt.concatenate([x34, y34]), "reshape": pt.reshape(x34, (4, 3)),
+        "slice": x34[1:, ::2], "identity-slice": x34[:, :], "int-index": x34[1], "reverse": x34[::-1],
+        "expand_dims": pt.expand_dims(x34, 0), "advanced-index": x34[pt.make_placeholder("ai", (2,), np.int64)],
+    }
+    for lbl, node in lowered.items():
+        out.append(("lowered-" + lbl, to_index_lambda(node)))
     return out
 
 
